@@ -6,9 +6,15 @@ both otherwise, so that the correspondence compares real = hand = interpreter.
 
   lskel fresh <bs> <hex d> <fo>          -> done | found <next> <bo:bi_beg:bi_end,…>
   lskel hist <bs> <hex d> <f<fo>|d<fo>>… -> per op `found <next> <beg> <end>` | `done` | `drop`, joined by ';'
+  lskel freshib <bs> <hex d> <fo>        -> done | found <next> <parts> | partial <parts>   (`find_line_in_block`:
+                                            hand `findLineInBlock` AND the interpreter of `S4V.Gen.Lines2`)
+  lskel hist2 <bs> <hex d> <f<fo>|i<fo>|d<fo>>… -> as `hist`, with `i` = `find_line_in_block`
+                                            (`found <next> <beg> <end>` | `partial <parts>` | `done`) and `d` =
+                                            `drop_line` from the regenerated facts
 -/
 import S4V.Model.Wire
 import S4V.Model.LineSkel
+import S4V.Model.LineSkel2
 
 namespace S4V.Drv.LineSkel
 open S4V.Model.Wire S4V.Model.Lines S4V.Model.LinesCached S4V.Model.LineSkel
@@ -33,7 +39,45 @@ def parseOps (ops : List String) : Option (List Op) :=
     | some fo => if kind = "f" then some (.find fo) else if kind = "d" then some (.drop fo) else none
     | none => none
 
+def parseOps2 (ops : List String) : Option (List S4V.Model.LineSkel2.Op2) :=
+  ops.mapM fun op =>
+    let kind := (op.take 1).toString
+    match (op.drop 1).toString.toNat? with
+    | some fo =>
+      if kind = "f" then some (.find fo) else if kind = "i" then some (.findib fo)
+      else if kind = "d" then some (.drop fo) else none
+    | none => none
+
+open S4V.Model.LineSkel2 in
+def stepLskel2 : List String → String
+  | "freshib" :: bs :: h :: fo :: [] =>
+    match bs.toNat?, unhex h, fo.toNat? with
+    | some bs, some d, some fo =>
+      let hand := (findLineInBlock bs d fo).toString
+      let g := findLineInBlockG bs d empty fo
+      let wfp := fun (ps : List GPart) => ps.all (fun p => p == ofPart bs p.toPart)
+      let wf := match g.1 with
+        | .res (.found _ b e ps) => wfp ps && b == gLineFoBeg ps && e == gLineFoEnd ps
+        | .part ps => wfp ps
+        | _ => true
+      let gs := g.1.toString
+      if hand = gs && wf then gs else s!"MISMATCH hand={hand} interp={gs} wf={wf}"
+    | _, _, _ => "bad-op"
+  | "hist2" :: bs :: h :: ops =>
+    match bs.toNat?, unhex h, parseOps2 ops with
+    | some bs, some d, some cops =>
+      let hr := runOps2 bs d empty cops
+      let gr := runOps2G bs d empty cops
+      let hand := String.intercalate ";" (hr.1.map GResIB.short)
+      let gs := String.intercalate ";" (gr.1.map GResIB.short)
+      let same := gr.2 == hr.2
+      if hand = gs && same then gs else s!"MISMATCH hand={hand} interp={gs} stores-equal={same}"
+    | _, _, _ => "bad-op"
+  | _ => "bad-op"
+
 def stepLskel : List String → String
+  | "freshib" :: rest => stepLskel2 ("freshib" :: rest)
+  | "hist2" :: rest => stepLskel2 ("hist2" :: rest)
   | "fresh" :: bs :: h :: fo :: [] =>
     match bs.toNat?, unhex h, fo.toNat? with
     | some bs, some d, some fo =>
